@@ -152,7 +152,9 @@ func refNames(order []phRef) map[string]string {
 		}
 		n := 1
 		for _, k := range byBase[b] {
-			for taken[fmt.Sprintf("%s_%d", b, n)] {
+			// (the official loop skips every candidate that is the base name of some placeholder of the
+			// message - also of a group that gets suffixes itself: X_1 stays free for the group X_1)
+			for taken[fmt.Sprintf("%s_%d", b, n)] || len(byBase[fmt.Sprintf("%s_%d", b, n)]) > 0 {
 				n++
 			}
 			names[k] = fmt.Sprintf("%s_%d", b, n)
